@@ -21,6 +21,7 @@ import (
 	"github.com/jirenius/go-res/verifhook"
 	nats "github.com/nats-io/nats.go"
 
+	"verifharness/astacc"
 	. "verifharness/common"
 )
 
@@ -272,6 +273,7 @@ func (r *runner) newService(c *conn) *res.Service {
 	s.SetLogger(nil)
 	s.SetWorkerCount(r.sc.Workers)
 	s.SetInChannelSize(r.sc.InCh)
+	s.SetQueryEventDuration(15 * time.Millisecond)
 	s.Handle("item.$c.$g", res.Group("${g}"), res.GetResource(func(q res.GetRequest) {
 		c, _ := strconv.Atoi(q.PathParam("c"))
 		r.body(c, q.PathParam("g"), false)
@@ -343,7 +345,21 @@ func (r *runner) safeGo(wg *sync.WaitGroup, what string, f func()) {
 // run executes the scenario and returns false if the process must stop (hang).
 func (r *runner) run() bool {
 	sc := r.sc
-	verifhook.SetNote(func(pt, s string, n int) { r.rec.add(pt, s, n) })
+	var holdCtr uint32
+	verifhook.SetNote(func(pt, s string, n int) {
+		r.rec.add(pt, s, n)
+		// lock-hold perturbation (stress runs): now and then stay inside a critical section of s.mu for > 1 ms.
+		// Goroutines then queue up on the mutex, it switches to starvation mode and is handed over in FIFO
+		// order, which makes narrow "unlock; lock again" windows of the code under test reachable.
+		if sc.Kind == "stress" {
+			switch pt {
+			case "enq-new", "enq-append", "take", "retire":
+				if atomic.AddUint32(&holdCtr, 1)%23 == 0 {
+					time.Sleep(1500 * time.Microsecond)
+				}
+			}
+		}
+	})
 	verifhook.SetGate(r.gate)
 	verifhook.SetPerturb(sc.Perturb)
 	defer verifhook.SetPerturb(0)
@@ -505,6 +521,72 @@ func (r *runner) run() bool {
 			close(release)
 			wg.Wait()
 			r.gateFn.Store((func(string))(nil))
+		case "d7": // a query event of group G expires while Shutdown is in progress and a callback of G is still executing
+			g := sc.Groups[0]
+			if g == "" {
+				g = "g1"
+			}
+			c1 := r.newCb(g)
+			cNil := r.newCb(g)
+			inCb := make(chan struct{})
+			release := make(chan struct{})
+			r.pushSub(g, c1)
+			if err := s.With(fmt.Sprintf("svc.item.%d.%s", c1, g), func(rs res.Resource) {
+				r.rec.add("run", g, c1)
+				v, _ := r.occupancy.LoadOrStore(g, new(int32))
+				atomic.AddInt32(v.(*int32), 1)
+				if p := r.scratch[g]; p != nil {
+					*p = *p + 1
+				}
+				// the expiry callback is submitted by the query listener goroutine: its runWith invocation is
+				// attributed through the anonymous submission queue
+				r.lsub.mu.Lock()
+				r.lsub.q = append(r.lsub.q, submission{g, cNil})
+				r.lsub.mu.Unlock()
+				rs.QueryEvent(func(q res.QueryRequest) {
+					if q == nil {
+						r.body(cNil, g, false)
+					}
+				})
+				close(inCb)
+				<-release
+				if p := r.scratch[g]; p != nil {
+					*p = *p + 1
+				}
+				atomic.AddInt32(v.(*int32), -1)
+				r.rec.add("ret", g, c1)
+			}); err != nil {
+				r.violation("with-error: " + err.Error())
+			}
+			<-inCb
+			shutDone := make(chan bool, 1)
+			go func() { shutDone <- r.shutdown(s) }()
+			time.Sleep(60 * time.Millisecond) // the query event expires while the callback is held and Shutdown waits
+			close(release)
+			ok = <-shutDone
+		case "stress": // many tiny callbacks of few groups from several producers: work items retire and are re-created constantly
+			for p := 0; p < sc.Producers; p++ {
+				p := p
+				r.safeGo(&wg, "WithGroup", func() {
+					for k := 0; k < sc.PerProd; k++ {
+						g := sc.Groups[(p+k)%len(sc.Groups)]
+						c := r.newCb(g)
+						r.pushSub(g, c)
+						s.WithGroup(g, func(*res.Service) {
+							r.rec.add("run", g, c)
+							if q := r.scratch[g]; q != nil {
+								*q = *q + 1
+							}
+							r.rec.add("ret", g, c)
+						})
+					}
+				})
+			}
+			wg.Wait()
+			r.settle(3 * time.Second)
+			if cyc < sc.Cycles-1 || sc.Shutdown == "after" {
+				ok = r.shutdown(s)
+			}
 		case "d3": // a callback is appended while the worker is between its last callback and re-locking
 			g := sc.Groups[0]
 			atRelock := make(chan struct{})
@@ -876,8 +958,8 @@ func runScenario(sc scenario) (Case, []ImplViolation, bool) {
 		groups = append(groups, fmt.Sprintf("(%d%%N,%d%%N)", k.(int), cv.gnum(v.(string))))
 		return true
 	})
-	complete := !cv.hasClose && sc.Shutdown == "none" && alive
-	term := fmt.Sprintf("SC %s %s %s", List(cv.labels), List(groups), Bool(complete))
+	complete := sc.Shutdown == "none" && alive && len(r.impl) == 0
+	term := fmt.Sprintf("SC %s %s %s []", List(cv.labels), List(groups), Bool(complete))
 	// non-trivial: >= 2 callbacks of one group were pending simultaneously (an EAppend happened) and >= 2 workers took work
 	appends, takers := 0, map[string]bool{}
 	for i, k := range cv.kinds {
@@ -935,12 +1017,20 @@ func main() {
 			}
 			scs = append(scs, sc)
 		}
+		ns := 3
+		if o.Tier == "thorough" {
+			ns = 40
+		}
+		for i := 0; i < ns; i++ {
+			scs = append(scs, scenario{Kind: "stress", Workers: []int{1, 2, 4}[rng.Intn(3)], InCh: 1024, Producers: 3 + rng.Intn(4),
+				PerProd: 400, Groups: groupSets[rng.Intn(2)], Cycles: 1, Shutdown: "none", Seed: rng.Next() % 1000000})
+		}
 		nd := 4
 		if o.Tier == "thorough" {
 			nd = 60
 		}
 		for i := 0; i < nd; i++ {
-			for _, k := range []string{"d1", "d2", "d3", "d4", "d5", "d6"} {
+			for _, k := range []string{"d1", "d2", "d3", "d4", "d5", "d6", "d7"} {
 				sc := scenario{Kind: k, Workers: []int{1, 2, 32}[rng.Intn(3)], InCh: 1024, Groups: groupSets[rng.Intn(3)],
 					Cycles: 1 + rng.Intn(2), Shutdown: "after", Seed: rng.Next() % 1000000}
 				scs = append(scs, sc)
@@ -965,9 +1055,23 @@ func main() {
 	if runMod == "C16" {
 		runMod = "C01" // race-detector mode: the traces are a by-product
 	}
-	hdr := "From stdpp Require Import gmap.\nFrom Coq Require Import NArith.\nFrom GoRes Require Import Run.Run_" + runMod + "."
+	// one structural case: the access table extracted from the current source; Coq checks that the atomic steps
+	// of the LTS (LSect, LEnq) are single critical sections in the code (Sched/Access.v granularity_ok)
+	if o.Replay == "" {
+		if acc, err := astacc.Collect("/repo"); err == nil {
+			var terms []string
+			for _, a := range acc {
+				terms = append(terms, astacc.CoqAcc(a))
+			}
+			cases = append(cases, Case{Term: "SC [] [] false " + List(terms), Desc: map[string]interface{}{"kind": "lock-granularity", "entries": len(acc)}, Nontrivial: true, Tags: []string{"lock-granularity"}})
+			dist["lock-granularity-table"]++
+		} else {
+			impl = append(impl, ImplViolation{What: "harness-ast: cannot parse /repo: " + err.Error(), Desc: "astacc", Tags: []string{"harness-ast"}})
+		}
+	}
+	hdr := "From stdpp Require Import gmap.\nFrom Coq Require Import NArith String.\nFrom GoRes Require Import Run.Run_" + runMod + ".\nLocal Open Scope string_scope."
 	Emit(o, *prop, hdr, "scase",
-		"real res.Service runs (worker counts 1/2/3/8/32, in-channel 1/2/1024, 1-6 producer goroutines using WithGroup incl. nested submissions from callbacks, requests through the in-channel incl. Parallel resources, publishers, 1-3 serve/shutdown cycles, shutdown after/during/none, seeded schedule perturbation at hook points) + directed schedules d1-d6 (enqueue after close-nil, publish after shutdown, append before re-lock, parked Signal, producers during parked close, ResetAll during Serve start-up); one case = one run's label trace; non-trivial = a callback was appended to a live work item and >= 2 workers took work, or a directed schedule; distinct by trace",
+		"real res.Service runs (worker counts 1/2/3/8/32, in-channel 1/2/1024, 1-6 producer goroutines using WithGroup incl. nested submissions from callbacks, requests through the in-channel incl. Parallel resources, publishers, 1-3 serve/shutdown cycles, shutdown after/during/none, seeded schedule perturbation at hook points) + directed schedules d1-d7 (enqueue after close-nil, publish after shutdown, append before re-lock, parked Signal, producers during parked close, ResetAll during Serve start-up, query expiry during Shutdown with a same-group callback in flight) + high-contention stress runs (thousands of tiny callbacks on 1-2 groups); one case = one run's label trace; non-trivial = a callback was appended to a live work item and >= 2 workers took work, or a directed schedule; distinct by trace",
 		cases, dist, nil, impl, 40)
 	if len(impl) > 0 {
 		fmt.Fprintln(os.Stderr, "impl violations:", len(impl))
